@@ -63,3 +63,8 @@ chk("C17",
     "Trusted: expected_events() derived from the tree spec.",
     "bounded exhaustive exploration over object-tree shapes and call kinds with an event-log oracle",
     "DESIGN.md section 3 C17")
+chk("C04",
+    "Every program of a list grammar (bit/int/enum/object elements; fixed sizes 0..3; random sizes under 6 size constraints incl. size tied to a scalar and to an element; foreach over element/index/both with index arithmetic and neighbour relations; sum, product, unique, unique_vec, membership; pairs of statements) x every answer sequence with <=1 non-default answer, two consecutive calls, followed by every edit history of length<=2 out of 7 edits compared step by step with a Python-list twin and a further call. Oracle over what the list exposes: statements over list(o.l); len == size == iteration length; index == iteration; fixed size kept; size constraint holds.",
+    "Trusted: per-program predicates in props/c04.py. Two open known findings (membership in a random-size list; sum/product when the size shares a rand set with an element) are matched by selector + predicted deviation.",
+    "deviation-bounded exhaustive exploration of list programs and edit histories against a Python-list twin",
+    "DESIGN.md section 3 C04")
